@@ -4156,7 +4156,8 @@ impl M2Model {
                 } else {
                     (skin.submeshes.len() / submesh_size) as u32
                 };
-                let n_batches = (skin.batches.len() / 96) as u32;
+                // A batch (texture unit) is 24 bytes, as read by collect_embedded_skin_data
+                let n_batches = (skin.batches.len() / 24) as u32;
 
                 // Extract bone_count_max from original ModelView (last 4 bytes)
                 let bone_count_max = if skin.model_view.len() >= 44 {
